@@ -5,6 +5,7 @@ The harness (harness/store.py) runs the real `Container` on the same operations 
 import Dos.Store
 import Dos.IO
 import Dos.IOImport
+import Dos.IOPackAllO
 import Dos.Wire
 
 namespace Dos.StoreDriver
@@ -184,6 +185,7 @@ def compileOp (t : Tab) (s : St) (args : List String) : Option (List Act) :=
   | ["addLoose", c, mk] => do pure (actsAddLoose s (← c.toNat?) (mk == "1"))
   | ["addPacked", comp, nh, rt, cs] => do pure (actsAddPacked t s (← natList cs) (comp == "1") (nh == "1") (rt == "1"))
   | ["packAll", cl, order, zs] => do pure (actsPackAll t s (← natList order) (← boolList zs) (cl == "1"))
+  | ["packAllO", cl, fs, order, zs] => do pure (actsPackAllO t s (← natList order) (← boolList zs) (cl == "1") (fs == "1"))
   | ["clean", order] => do pure (actsClean s (← natList order))
   | ["delete", ks] => do pure (actsDelete s (← natList ks))
   | ["repackOne", p, zs] => do pure (actsRepackPack t s (← p.toNat?) (← boolList zs))
